@@ -340,7 +340,7 @@ def congruence_instance(a, b, n):
     return z3.Implies(z3.And(n >= 0, z3.ForAll([k], z3.Implies(z3.And(0 <= k, k < n), a[k] == b[k]))), PSUM(a, n) == PSUM(b, n))
 
 
-def _valid(c, f, extra=(), timeout_ms=300):
+def _valid(c, f, extra=(), timeout_ms=1500):
     """Quick generation-time test (selects which lemma instances are offered; never used as a proof)."""
     sol = z3.Solver()
     sol.set("timeout", timeout_ms)
@@ -350,7 +350,14 @@ def _valid(c, f, extra=(), timeout_ms=300):
     return sol.check() == z3.unsat
 
 
-def sum_clauses(c, label, lhs, rhs_thunk, binders=(), rng=None):
+def mentioning(vs, terms, body):
+    """``forall vs. body`` with the given integer terms named by universally quantified variables (h == term => body): logically the
+    same formula, but the terms occur in the query, so that the hypotheses triggered by them get instantiated."""
+    hs = [z3.Int(f"h!mn{i}") for i in range(len(terms))]
+    return z3.ForAll(list(vs) + hs, z3.Implies(z3.And(*[h == t for h, t in zip(hs, terms)]), body)) if terms else z3.ForAll(list(vs), body)
+
+
+def sum_clauses(c, label, lhs, rhs_thunk, binders=(), rng=None, mention=None):
     """Clauses establishing ``lhs == rhs`` (for all ``binders`` in ``rng``) when both sides contain prefix sums.
 
     Each sum of the specification (innermost first) is paired with the sum computed by the code whose summands agree with it
@@ -370,8 +377,9 @@ def sum_clauses(c, label, lhs, rhs_thunk, binders=(), rng=None):
         for ci, (a, n) in enumerate(code):
             if ci in used or not (z3.simplify(n == n2).eq(z3.BoolVal(True)) or _valid(c, n == n2)):
                 continue
-            agree = z3.And(n == n2, z3.ForAll([k], z3.Implies(z3.And(0 <= k, k < n), a[k] == b[k])))
-            if a.eq(b) or _valid(c, z3.Implies(z3.And(0 <= k, k < n), a[k] == b[k]), [rng] + eqs if binders else eqs):
+            agree = z3.And(n == n2, mentioning([k], mention(k) if mention else [], z3.Implies(z3.And(0 <= k, k < n), a[k] == b[k])))
+            if a.eq(b) or _valid(c, mentioning([], mention(k) if mention else [], z3.Implies(z3.And(0 <= k, k < n), a[k] == b[k])) if mention else
+                                 z3.Implies(z3.And(0 <= k, k < n), a[k] == b[k]), [rng] + eqs if binders else eqs):
                 used.add(ci)
                 if not a.eq(b):
                     out.append((f"{label}:summands-of-sum-{si}", close(z3.Implies(z3.And(*inst), agree) if inst else agree)))
